@@ -31,7 +31,7 @@ PATHS = ['sync', 'async', 'rest']
 VERBS = ['post', 'get', 'patch', 'put', 'delete']
 CHAR = {'sp': ' ', 'amp': '&', 'eq': '=', 'pct': '%', 'uni': 'é'}
 MUTANTS = ['first_wins', 'empty_header', 'suffixed_key', 'async_drops_header', 'additional_binding', 'raw_value',
-           'dstar_as_star']
+           'dstar_as_star', 'presence_counts', 'one_shot_metadata']
 INVARIANTS = ['Inv_Explicit', 'Inv_NoHeaderWhenNothing', 'Inv_Implicit', 'Inv_KeysOriginal', 'Inv_Encoded',
               'Inv_Agree', 'Inv_Fold', 'Inv_FoldDecl', 'Inv_MatchGen', 'Inv_Bounded']
 
@@ -66,10 +66,11 @@ def var_text(v, bare_ok):
 def rule_shape(rule):
     """stable, human-readable name of a rule (used in violation keys)."""
     http = ' | '.join('/'.join(var_text(v, False) for v in b) or '-' for b in rule['http'])
+    tail = (' optional[' + ','.join(sorted(rule['opt'])) + ']' if rule.get('opt') else '') + (' paged' if rule.get('paged') else '')
     if rule['explicit']:
         return 'explicit[' + '; '.join('.'.join(p['field']) + ':' + (tmpl_text(p['tmpl']) or '-')
-                                       for p in rule['params']) + '] http[' + http + ']'
-    return ('implicit-custom[' if rule.get('custom') else 'implicit[') + http + ']'
+                                       for p in rule['params']) + '] http[' + http + ']' + tail
+    return ('implicit-custom[' if rule.get('custom') else 'implicit[') + http + ']' + tail
 
 
 def method_of(idx, rule):
@@ -87,7 +88,8 @@ def method_of(idx, rule):
             if verb in ('post', 'patch', 'put'):
                 h['body'] = '*'
         http.append(h)
-    m = dict(name=f'M{idx}', **{'in': f'M{idx}Request', 'out': 'Resp'}, http=http)
+    m = dict(name=f'M{idx}', **{'in': f'M{idx}Request', 'out': 'ListResp' if rule.get('paged') else 'Resp'}, http=http,
+             x_opt=sorted(rule.get('opt', [])), x_paged=bool(rule.get('paged')))
     if rule['explicit']:
         m['routing'] = [dict(field='.'.join(p['field']), tmpl=tmpl_text(p['tmpl'])) for p in rule['params']]
     return m
@@ -96,16 +98,21 @@ def method_of(idx, rule):
 def api_of(methods, keyword=False):
     extra = [dict(name='class')] if keyword else []
     msgs = [dict(name='Sub', fields=[dict(name='name'), dict(name='type'), dict(name='id', type='int32')] + extra),
-            dict(name='Resp', fields=[dict(name='x')])]
+            dict(name='Resp', fields=[dict(name='x')]),
+            dict(name='ListResp', fields=[dict(name='items', repeated=True), dict(name='next_page_token')])]
     for m in methods:
-        msgs.append(dict(name=m['in'], fields=[dict(name='name'), dict(name='other'), dict(name='type'),
-                                               dict(name='sub', type='Sub'), dict(name='page', type='int32')] + extra))
+        opt = set(m.get('x_opt', []))
+        paging = [dict(name='page_size', type='int32'), dict(name='page_token')] if m.get('x_paged') else []
+        msgs.append(dict(name=m['in'], fields=[dict(name=f, optional=True) if f in opt else dict(name=f)
+                                               for f in ('name', 'other', 'type')]
+                         + [dict(name='sub', type='Sub'), dict(name='page', type='int32')] + paging + extra))
     return dict(files=[dict(name='acme/rt/v1/rt.proto', package=PKG, messages=msgs,
                             services=[dict(name=SERVICE, methods=methods)])])
 
 
-def request_of(req):
-    out = {}
+def request_of(req, blank=()):
+    """abstract request -> request dict: unset fields are left out, fields of `blank` are set explicitly to ''."""
+    out = {k: '' for k in blank}
     for k, v in req.items():
         if not v:
             continue
@@ -130,8 +137,8 @@ def _run_api(job):
                 return dict(gen_error=f'{type(e).__name__}: {e}'[:600], obs={})
             root = gen.materialise(res, os.path.join(work, 'out'))
             ok, out, err = gen.run_driver('harness.drivers.routing', root,
-                                          dict(module=MODULE, service=SERVICE, service_snake='rt', pkg=PKG,
-                                               cases=job['cases'], paths=PATHS), timeout=1500)
+                                          dict(api=job['api'], list_resp=f'{PKG}.ListResp', module=MODULE, service=SERVICE,
+                                               service_snake='rt', pkg=PKG, cases=job['cases'], paths=PATHS), timeout=1500)
             if not ok:
                 return dict(machinery='routing driver failed:\n' + err)
             return dict(gen_error=None, import_error=out['import_error'], obs=out['obs'])
@@ -140,6 +147,7 @@ def _run_api(job):
 
 
 HEAP = '-Xmx3g'            # many checks share this machine: keep every JVM small
+NPROC = 8                  # ... and at most this many worker processes at a time
 
 
 def _tlc(*a, **kw):
@@ -173,28 +181,33 @@ def _canon_pairs(pairs):
 def main(chk, args):
     quick = chk.tier == 'quick'
     rnd = random.Random(chk.seed)
-    bg = ThreadPoolExecutor(12)
+    bg = ThreadPoolExecutor(NPROC)            # every thread drives one TLC process (shared machine: at most NPROC)
     # 1. the specification satisfies the property within the bounds; the spec mutants are rejected.  These TLC runs
-    #    proceed in the background while cases are emitted and executed.
-    mc = [bg.submit(_tlc, 'Routing', 'Routing.small.cfg' if quick else 'Routing.full.cfg', deadlock=False,
-                    timeout=2400, workers=8)]
-    if not quick:
-        mc.append(bg.submit(_tlc, 'Routing', 'Routing.small.cfg', deadlock=False, timeout=2400, workers=4))
-        # beyond the exhaustive bounds: seeded simulation of the large scope (0..4 parameters, 1..3 variables)
-        mc += [bg.submit(_tlc, 'Routing', 'Routing.sim.cfg', deadlock=False, timeout=2400, workers=1, simulate=2500,
-                         depth=500, seed=chk.seed * 1000 + 91 + k) for k in range(3)]
-    # (mutants: seeded simulation of the small scope with 6 requests per rule finds each of them within seconds)
-    base_cfg = open(os.path.join(tlc.SPEC, 'Routing.small.cfg')).read().replace('MaxCalls = 1', 'MaxCalls = 6')
-    muts = {m: bg.submit(_tlc, 'Routing', base_cfg.replace('Mutant = "none"', f'Mutant = "{m}"'), deadlock=False,
-                         timeout=1200, workers=1, simulate=4000, depth=300, seed=5) for m in MUTANTS}
-
+    #    proceed in the background while cases are emitted and executed (the longest one is started first).
+    mc_cfgs = ['Routing.small.cfg', 'Routing.presence.cfg', 'Routing.paged.cfg'] + ([] if quick else ['Routing.full.cfg'])
+    mc = [bg.submit(_tlc, 'Routing', mc_cfgs[0], deadlock=False, timeout=2400, workers=4)]
     # 2. spec -> code cases: exhaustive small scopes + seeded simulation of the large scope
-    emits = [('Routing.emit.tiny.cfg', {}), ('Routing.emit.keyword.cfg', {})]
-    nsim, per = (6, 30) if quick else (14, 220)
+    emits = [('Routing.emit.tiny.cfg', {}), ('Routing.emit.presence.cfg', {}), ('Routing.emit.paged.cfg', {}),
+             ('Routing.emit.keyword.cfg', {})]
+    nsim, per = (4, 40) if quick else (12, 250)
     if not quick:
-        emits += [('Routing.emit.small.cfg', {}), ('Routing.emit.templates.cfg', {})]
-    emits += [('Routing.emit.sim.cfg', dict(simulate=per, depth=500, seed=chk.seed * 1000 + 17 + k)) for k in range(nsim)]
+        emits = [('Routing.emit.templates.cfg', {}), ('Routing.emit.small.cfg', {})] + emits
+    emits += [('Routing.emit.sim.cfg', dict(simulate=per, depth=700, seed=chk.seed * 1000 + 17 + k)) for k in range(nsim)]
     futs = [(cfg, bg.submit(_emit, 'Routing', cfg, deadlock=False, timeout=1500, **kw)) for cfg, kw in emits]
+    mc += [bg.submit(_tlc, 'Routing', cfg, deadlock=False, timeout=2400, workers=2 if quick else 4) for cfg in mc_cfgs[1:]]
+    mc_labels = [cfg.split('.')[1] for cfg in mc_cfgs]
+    if not quick:
+        # beyond the exhaustive bounds: seeded simulation of the large scope (0..4 parameters, 1..3 variables,
+        # optional fields, listings of 2..3 pages)
+        mc += [bg.submit(_tlc, 'Routing', 'Routing.sim.cfg', deadlock=False, timeout=2400, workers=1, simulate=2500,
+                         depth=700, seed=chk.seed * 1000 + 91 + k) for k in range(3)]
+        mc_labels += ['simulate large'] * 3
+    # (mutants: seeded simulation of the small scope - with optional fields and listings switched on - with 6
+    #  requests per rule finds each of them within seconds)
+    base_cfg = (open(os.path.join(tlc.SPEC, 'Routing.small.cfg')).read().replace('MaxCalls = 1', 'MaxCalls = 6')
+                .replace('OptFields = {}', 'OptFields = {"name"}').replace('MaxPages = 1', 'MaxPages = 2'))
+    muts = {m: bg.submit(_tlc, 'Routing', base_cfg.replace('Mutant = "none"', f'Mutant = "{m}"'), deadlock=False,
+                         timeout=1200, workers=1, simulate=6000, depth=400, seed=5) for m in MUTANTS}
     cases, seen, per_cfg = [], set(), {}
     for cfg, f in futs:
         cs, r = f.result()
@@ -202,7 +215,8 @@ def main(chk, args):
         if not cs:
             raise core.MachineryError(f'no cases emitted by {cfg}\n{r.out[-2000:]}')
         for c in cs:
-            key = json.dumps([c['rule'], c['req']], sort_keys=True)
+            c['blank'] = sorted(c['blank']); c['rule']['opt'] = sorted(c['rule']['opt'])
+            key = json.dumps([c['rule'], c['req'], c['blank'], c['npages']], sort_keys=True)
             if key in seen:
                 continue                      # same (rule, request): e.g. the refuse / send variants of REST
             seen.add(key)
@@ -219,11 +233,16 @@ def main(chk, args):
         corner = [k for k in rule_keys if by_rule[k][0]['src'].endswith('keyword.cfg')
                   or (by_rule[k][0]['rule']['explicit'] and not by_rule[k][0]['rule']['params'])]
         corner += [k for k in rule_keys if by_rule[k][0]['rule'].get('custom')][:8]
+        # the presence and pagination dimensions: a seeded sample of the rules with optional fields / listings
+        for dim in ('opt', 'paged'):
+            pool_ = [k for k in rule_keys if by_rule[k][0]['rule'].get(dim) and k not in corner]
+            corner += rnd.sample(pool_, min(len(pool_), 40))
         rest = [k for k in rule_keys if k not in corner]
-        rule_keys = corner + rnd.sample(rest, min(len(rest), 260))
+        rule_keys = corner + rnd.sample(rest, min(len(rest), 200))
         for k in rule_keys:
             if len(by_rule[k]) > 16:
-                by_rule[k] = rnd.sample(by_rule[k], 16)
+                keep = [c for c in by_rule[k] if c['blank']][:8]          # explicitly empty optional fields stay in
+                by_rule[k] = keep + rnd.sample([c for c in by_rule[k] if c not in keep], 16 - len(keep))
 
     # 3. concretise: pack rules as methods of generated APIs.  Shapes known to break the whole package (design
     #    findings F1/F2: Python keywords; the empty routing annotation) get an API of their own so that they cannot
@@ -255,10 +274,11 @@ def main(chk, args):
             for ci, c in enumerate(by_rule[k]):
                 cid = f'{gi}.{mi}.{ci}'
                 meta[cid] = (c, m)
-                jcases.append(dict(id=cid, method=f'm{mi}', rpc=f'/{PKG}.{SERVICE}/M{mi}', request=request_of(c['req'])))
+                jcases.append(dict(id=cid, method=f'm{mi}', rpc=f'/{PKG}.{SERVICE}/M{mi}',
+                                   request=request_of(c['req'], c['blank']), paged=bool(rule.get('paged')), npages=c['npages']))
         jobs.append(dict(api=api_of(methods, keyword=kw), cases=jcases, rules=g))
     results = []
-    with ProcessPoolExecutor(14) as ex:
+    with ProcessPoolExecutor(NPROC) as ex:
         for job, out in zip(jobs, ex.map(_run_api, jobs)):
             if out.get('machinery'):
                 raise core.MachineryError(out['machinery'])
@@ -288,7 +308,7 @@ def main(chk, args):
             if len(job['rules']) > 1:
                 # isolate: regenerate every method of the packed API on its own
                 singles = [dict(api=api_of([method_of(0, json.loads(k))]), cases=[], rules=[k]) for k in job['rules']]
-                with ProcessPoolExecutor(14) as ex:
+                with ProcessPoolExecutor(NPROC) as ex:
                     outs = list(ex.map(_run_api, singles))
                 bad = [(k, o) for k, o in zip(job['rules'], outs) if o.get('gen_error') or o.get('import_error')]
                 if not bad:
@@ -310,7 +330,7 @@ def main(chk, args):
             shape = rule_shape(rule)
             obs = out['obs'].get(jc['id'], {})
             want_pairs = _canon_pairs(c['pairs'])
-            chk.case(f'{shape} / {json.dumps(jc["request"], sort_keys=True)}', nontrivial=bool(jc['request']))
+            chk.case(f'{shape} / {json.dumps(jc["request"], sort_keys=True)} / {c["npages"]}', nontrivial=bool(jc['request']))
             for p in PATHS:
                 o = obs.get(p)
                 diff = None
@@ -323,20 +343,28 @@ def main(chk, args):
                         refused_ok += 1
                 elif o['status'] != 'sent':
                     diff = f'call failed: {o["error"]}'
-                elif len(o['raw']) > 1:
-                    diff = f'{len(o["raw"])} header entries: {o["raw"]}'
+                elif len(o['fetches']) != c['npages']:
+                    diff = (f'{len(o["fetches"])} calls reached the server for a listing of {c["npages"]} pages'
+                            + (f' ({o["error"]})' if o.get('error') else ''))
                 else:
-                    got_present = bool(o['raw'])
-                    got_pairs = _canon_pairs(proj.pairs_of(o['raw'][0])) if got_present else []
-                    if got_present != c['present']:
-                        diff = (f'header {"present" if got_present else "absent"} '
-                                f'({o["raw"]}), predicted {"present" if c["present"] else "absent"}')
-                    elif got_pairs != want_pairs:
-                        diff = f'pairs {got_pairs} (raw {o["raw"][0]!r}) != predicted {want_pairs}'
+                    for k, raw in enumerate(o['fetches'], 1):
+                        where = f'call for page {k}: ' if c['npages'] > 1 else ''
+                        got_present = bool(raw)
+                        got_pairs = _canon_pairs(proj.pairs_of(raw[0])) if got_present else []
+                        if len(raw) > 1:
+                            diff = f'{where}{len(raw)} header entries: {raw}'
+                        elif got_present != c['present']:
+                            diff = (f'{where}header {"present" if got_present else "absent"} '
+                                    f'({raw}), predicted {"present" if c["present"] else "absent"}')
+                        elif got_pairs != want_pairs:
+                            diff = f'{where}pairs {got_pairs} (raw {raw[0]!r}) != predicted {want_pairs}'
+                        if diff:
+                            break
                 if diff:
                     fail(special_key(rule, f'replay:{p}'), f'{shape} request={jc["request"]}: {diff}',
                          dict(case=c, method=m, request=jc['request'], path=p, observed=o))
-            traces.append(dict(rule=rule, req=c['req'], events=proj.events_of(obs, PATHS)))
+            traces.append(dict(rule=rule, req=c['req'], blank=c['blank'], npages=c['npages'],
+                               events=proj.events_of(obs, PATHS)))
             trace_ids.append(jc['id'])
 
     # 5. code -> spec: batched trace validation, batches in parallel
@@ -354,7 +382,7 @@ def main(chk, args):
             c, m = meta[cid]
             fail(special_key(c['rule'], 'trace'),
                  f'RoutingTrace rejected the recorded behaviour of {rule_shape(c["rule"])} '
-                 f'request={request_of(c["req"])}: {info}', dict(case=c, method=m, trace=t, info=info))
+                 f'request={request_of(c["req"], c["blank"])}: {info}', dict(case=c, method=m, trace=t, info=info))
     chk.tlc_runs.append(dict(label='RoutingTrace batches', batches=nb, runs=tot_runs, accepted=chk.traces))
     for key in sorted(fails):
         n, summary, replay = fails[key]
@@ -362,7 +390,7 @@ def main(chk, args):
 
     # 6. the background TLC runs
     simulated = 0
-    for f, label in zip(mc, ['small'] if quick else ['full', 'small', 'simulate large', 'simulate large', 'simulate large']):
+    for f, label in zip(mc, mc_labels):
         r = f.result()
         chk.add_tlc(r, f'Routing model check ({label})')
         m = re.search(r'(\d+) states checked', r.out)
@@ -378,7 +406,8 @@ def main(chk, args):
                 'scopes and seeded -simulate over the large scope (explicit rules of 0..4 parameters over <= 2 fields, '
                 'templates = every capture range over realistic token sequences, keys shared between parameters, nested '
                 'and reserved-word fields; implicit rules of 1..3 variables, optional additional binding, or the `custom` pattern as the only binding); requests derived '
-                'from the templates (empty, matching, matching with characters needing escaping, broken); each case is '
+                'from the templates (unset, explicitly empty for fields declared proto3 optional, matching, matching with characters '
+                'needing escaping, broken); paginated methods are listed over 2..3 pages and every page fetch is observed; each case is '
                 'executed on sync gRPC, asyncio gRPC and REST.  non-trivial = at least one field the rule reads is non-empty; '
                 'distinct by (rule, request)')
     def pick(pred, n):
@@ -394,16 +423,18 @@ def main(chk, args):
     esc = lambda c: any('sp' in seg for _, v in c['pairs'] for seg in v)
     ids = (pick(lambda c: c['rule']['explicit'] and len(c['rule']['params']) > 2 and len(c['pairs']) > 1 and esc(c), 2)
            + pick(lambda c: c['rule']['explicit'] and c['rule']['params'] and not c['present'] and request_of(c['req']), 1)
+           + pick(lambda c: c['blank'] and c['present'], 1) + pick(lambda c: c['npages'] > 1 and c['present'], 1)
            + pick(lambda c: not c['rule']['explicit'] and len(c['pairs']) > 1 and esc(c) and 'type' in json.dumps(c['rule']), 2)
            + pick(lambda c: c['rule']['explicit'] and len(c['rule']['params']) == 2 and esc(c), 1))
     for cid in ids:
         c, m = meta[cid]
-        chk.sample(dict(rule=rule_shape(c['rule']), routing=m.get('routing'), http=m['http'], request=request_of(c['req']),
+        chk.sample(limit=8, obj=dict(rule=rule_shape(c['rule']), routing=m.get('routing'), http=m['http'], request=request_of(c['req'], c['blank']), pages=c['npages'],
                         predicted=dict(present=c['present'], pairs=[[k, value_text(v)] for k, v in c['pairs']])))
     chk.assumptions += [
         'path templates follow routing.proto / http.proto syntax: exactly one named segment, `**` only as the last segment',
         'a routing path_template written `{key}` (without `=`) is left out: it crashes generation in the unit-test '
         'sample helper (uri_sample.sample_from_path_template), outside the code C06 is about (DESIGN 7.1)',
+        'only top-level routing fields are declared proto3 optional (nested messages are shared between the methods of an API)',
         'client-streaming methods are not in the quantifier (they send an empty implicit header by design)',
         'REST: a request whose path variables do not match the http rule strictly (non-empty segments, `**` >= 1 '
         'segment) may be refused by transcoding (no HTTP request at all); that is C04\'s subject and accepted here',
@@ -412,7 +443,7 @@ def main(chk, args):
         'http verbs are assigned round-robin by the harness; `{f}` and `{f=*}` spellings of http variables alternate',
         'loopback gRPC/HTTP servers; character classes are represented by one character each (space & = % e-acute)']
     chk.extra.update(simulated_states_checked=simulated, rules=len(rule_keys), apis=len(jobs), cases_by_config=per_cfg, rest_refusals_accepted=refused_ok,
-                     calls=3 * len(traces))
+                     calls=sum(len(o.get('fetches', [])) for _, out in results for ob in out.get('obs', {}).values() for o in ob.values()))
 
 
 main.level = 'model_checking'
